@@ -32,6 +32,21 @@ PY
     exec ./bin/verifs "$@"
     ;;
 esac
+if [ "$1" = "C19" ]; then
+  # schedule exploration needs pub/transport.go rebuilt through the sync overlay; if the current
+  # file cannot be rewritten or built that way the check runs without it (exhaustive:false)
+  unset VERIF_C19_SCHED
+  rm -rf .overlay
+  if go run ./cmd/mkoverlay $REPO "$(pwd)/.overlay" 2> bin/overlay.err && \
+     go build -tags verifoverlay -overlay .overlay/overlay.json -o bin/verift ./cmd/verift 2>> bin/overlay.err; then
+    export VERIF_C19_SCHED="$(pwd)/bin/verift"
+  else
+    echo "C19: sync overlay unavailable for the current pub/transport.go:" >&2; head -5 bin/overlay.err >&2
+  fi
+  # supplementary free-running pass under the race detector
+  VERIF_TIER=$2 timeout 900 go test -race -count=1 ./racetest/ -run TestC19 > bin/c19race.log 2>&1
+  export VERIF_C19_RACE="$(pwd)/bin/c19race.log"
+fi
 if ! go build -trimpath -o bin/verif ./cmd/verif 2> bin/build.err; then
   # A tree that no longer compiles against the checkers is a tool error, not a verdict.
   cat bin/build.err >&2
